@@ -164,7 +164,7 @@ func (r *run) phase() (string, bool) {
 	now := time.Now()
 	near := false
 	for _, t := range []time.Time{roots.Current.NotBefore.AsTime(), roots.Current.NotAfter.AsTime(), roots.Next.NotBefore.AsTime(), roots.Next.NotAfter.AsTime()} {
-		if d := now.Sub(t); d > -450*time.Millisecond && d < 1050*time.Millisecond {
+		if d := now.Sub(t); d > -1500*time.Millisecond && d < 1050*time.Millisecond {
 			near = true // certificate times are whole seconds: a boundary within the current second is too close
 		}
 	}
@@ -258,8 +258,10 @@ func Run(bh Behaviour, seed int64) ([]Line, error) {
 		_, near0 := r.phase()
 		r.step(op, &ln)
 		ln.Post = r.state()
-		// real-time root lifetimes: a step that ran across, or too close to, a validity boundary is not judged
-		if _, near1 := r.phase(); bh.Cfg.LifeSec > 0 && !waitOps[s(op, "op")] && (near0 || near1 || ln.Pre.Phase != ln.Post.Phase || ln.Pre.Phase == "other") {
+		// real-time root lifetimes: a step that STARTED within 1.5 s before (1 s after) a validity boundary is not judged.
+		// A step that started well clear of every boundary is judged by the phase it started in even when it ran so long
+		// that a boundary passed meanwhile: handshakes take milliseconds, a dial that needs seconds has already failed.
+		if bh.Cfg.LifeSec > 0 && !waitOps[s(op, "op")] && (near0 || ln.Pre.Phase == "other") {
 			ln.Unc = true
 		}
 		lines = append(lines, ln)
@@ -331,6 +333,9 @@ func extrasFor(class string) []string {
 		return []string{"app-proto", "app-proto", "h2", "app-proto"}
 	case "prefixlike":
 		return []string{"v1-nodee-", "v1-nodee-fetch", "__AUTH__", "v1-nodee-certificate-preferenc"}
+	case "containsPref":
+		// application names that merely CONTAIN one of the library's prefixes somewhere other than at their start
+		return []string{"acme/" + nodeenrollment.CertificatePreferenceV1Prefix + "passthrough", "x-" + nodeenrollment.AuthenticateNodeNextProtoV1Prefix + "y", "app-proto"}
 	}
 	return nil
 }
@@ -575,6 +580,11 @@ func (r *run) dial(op map[string]any, ln *Line) {
 	want := r.stateFor(s(op, "stt"))
 	if want != nil {
 		opts = append(opts, nodeenrollment.WithState(want))
+	}
+	if s(op, "stt") == "overriddenNil" {
+		// options are last-wins: a default state overridden with "none" for this dial means no state is supplied
+		dflt, _ := structpb.NewStruct(map[string]any{"default": true})
+		opts = append(opts, nodeenrollment.WithState(dflt), nodeenrollment.WithState(nil))
 	}
 	results, conn, err := srv.HonestDial(k, opts...)
 	var auth *hs.AcceptResult
